@@ -132,6 +132,11 @@ struct Rig {
 
 impl Rig {
     fn start(nworkers: usize, timeout_s: u32) -> Rig {
+        Rig::start_small(nworkers, timeout_s, 0)
+    }
+
+    /// the last `small` workers get a channel whose ceiling (4 KiB) refuses a big request
+    fn start_small(nworkers: usize, timeout_s: u32, small: usize) -> Rig {
         let dir = tempfile::Builder::new().prefix("vhub").tempdir_in("/tmp").expect("tempdir");
         let sock_path = dir.path().join("s").to_string_lossy().to_string();
         let pid = DUMMY_PID.load(std::sync::atomic::Ordering::SeqCst);
@@ -170,7 +175,9 @@ impl Rig {
                     for (id, fd, scm, _far) in &hub_ends {
                         // SAFETY: fds freshly created above, ownership moves into the channel / scm socket
                         let stream = unsafe { mio::net::UnixStream::from_raw_fd(*fd) };
-                        let ch: Channel<WorkerRequest, WorkerResponse> = Channel::new(stream, 16384, 2_000_000);
+                        let is_small = (*id as usize) + small >= nworkers;
+                        let ch: Channel<WorkerRequest, WorkerResponse> =
+                            if is_small { Channel::new(stream, 4096, 4096) } else { Channel::new(stream, 16384, 2_000_000) };
                         let scm = ScmSocket::new(*scm).map_err(|e| e.to_string())?;
                         hub.server.register_worker(*id, pid, ch, scm).map_err(|e| e.to_string())?;
                     }
@@ -430,6 +437,8 @@ const UNIT_MS: u64 = 100;
 #[derive(Clone, Debug, PartialEq)]
 enum VerbK {
     Add,
+    /// AddCluster with an 8 KB id: the small workers' channels refuse the frame
+    AddBig,
     Bad,
     Query,
     Status,
@@ -448,6 +457,7 @@ impl VerbK {
     fn parse(w: &[&str]) -> Option<VerbK> {
         Some(match w {
             ["add"] => VerbK::Add,
+            ["addbig"] => VerbK::AddBig,
             ["bad"] => VerbK::Bad,
             ["query"] => VerbK::Query,
             ["status"] => VerbK::Status,
@@ -464,17 +474,17 @@ impl VerbK {
         })
     }
     fn gathers(&self) -> bool {
-        matches!(self, VerbK::Add | VerbK::Query | VerbK::Status | VerbK::Metrics | VerbK::HardStop | VerbK::SoftStop | VerbK::Load(_))
+        matches!(self, VerbK::Add | VerbK::AddBig | VerbK::Query | VerbK::Status | VerbK::Metrics | VerbK::HardStop | VerbK::SoftStop | VerbK::Load(_))
     }
     fn has_deadline(&self) -> bool {
-        matches!(self, VerbK::Add | VerbK::Query | VerbK::Status | VerbK::Metrics | VerbK::HardStop)
+        matches!(self, VerbK::Add | VerbK::AddBig | VerbK::Query | VerbK::Status | VerbK::Metrics | VerbK::HardStop)
     }
     fn is_stop(&self) -> bool {
         matches!(self, VerbK::HardStop | VerbK::SoftStop)
     }
     /// verbs whose Ok means "applied on every worker"
     fn is_mutating(&self) -> bool {
-        matches!(self, VerbK::Add | VerbK::Load(_))
+        matches!(self, VerbK::Add | VerbK::AddBig | VerbK::Load(_))
     }
     fn subs(&self) -> usize {
         match self {
@@ -502,6 +512,8 @@ struct ReqInfo {
     answers: Vec<(u64, u64, u64, bool, usize)>,
     /// workers closed while the request was pending
     closed_while_pending: Vec<u64>,
+    /// workers alive at dispatch whose channel refused the request (never received it)
+    unsendable: Vec<u64>,
     /// ops at which the script sent any response (Processing included) for this request
     touched_at: Vec<usize>,
     finals: Vec<(char, usize)>,
@@ -518,6 +530,8 @@ struct Run<'a> {
     rig: Rig,
     clients: BTreeMap<u64, Peer>,
     closed_workers: Vec<u64>,
+    /// workers with a small channel ceiling
+    small: Vec<u64>,
     /// (worker, task, sub) -> id string as the hub produced it
     ids: BTreeMap<(u64, u64, u64), String>,
     reqs: Vec<ReqInfo>,
@@ -559,6 +573,11 @@ impl<'a> Run<'a> {
     fn build_request(&mut self, idx: usize, verb: &VerbK) -> Request {
         match verb {
             VerbK::Add => RequestType::AddCluster(Cluster { cluster_id: format!("c{idx}"), ..Default::default() }).into(),
+            VerbK::AddBig => RequestType::AddCluster(Cluster {
+                cluster_id: format!("big{idx}-{}", "x".repeat(8000)),
+                ..Default::default()
+            })
+            .into(),
             VerbK::Bad => RequestType::RemoveCluster(format!("missing{idx}")).into(),
             VerbK::Query => RequestType::QueryClustersHashes(QueryClustersHashes {}).into(),
             VerbK::Status => RequestType::Status(Status {}).into(),
@@ -642,7 +661,7 @@ impl<'a> Run<'a> {
                     Some(q) => {
                         if code != 'P' {
                             q.finals.push((code, op_idx));
-                            if code == 'F' && q.verb == VerbK::Add && q.task.is_some() && !resp.message.starts_with("could not") {
+                            if code == 'F' && matches!(q.verb, VerbK::Add | VerbK::AddBig) && q.task.is_some() && !resp.message.starts_with("could not") {
                                 let log = parse_failure_log(&resp.message);
                                 text = if log == "~" { "F".into() } else { format!("F[{log}]") };
                             }
@@ -709,6 +728,7 @@ impl<'a> Run<'a> {
             task: None,
             answers: vec![],
             closed_while_pending: vec![],
+            unsendable: vec![],
             touched_at: vec![],
             finals: vec![],
             eof_at: None,
@@ -722,7 +742,16 @@ impl<'a> Run<'a> {
         self.clients.get_mut(&c).unwrap().send_raw(&frame(&req));
         // the workers receive the scattered requests: learn the ids
         if verb.gathers() {
-            for w in targeted {
+            let unsendable: Vec<u64> =
+                if verb == VerbK::AddBig { targeted.iter().copied().filter(|w| self.small.contains(w)).collect() } else { vec![] };
+            // as coded, a worker whose channel refused the frame is flagged in
+            // error and closed by the next loop iteration
+            for w in &unsendable {
+                self.closed_workers.push(*w);
+                self.r.tags.push("unsendable-worker".into());
+            }
+            self.reqs[idx].unsendable = unsendable.clone();
+            for w in targeted.into_iter().filter(|w| !unsendable.contains(w)) {
                 for _ in 0..verb.subs() {
                     let Some(peer) = self.rig.workers[w as usize].as_mut() else { continue };
                     match peer.recv::<WorkerRequest>(Duration::from_secs(3)) {
@@ -753,13 +782,27 @@ impl<'a> Run<'a> {
         if self.hub_gone {
             return "-".into();
         }
-        let id = self.ids.get(&(rw, rt, rs)).cloned().unwrap_or_else(|| format!("Unknown-{rw}-{rt}-{rs}"));
+        // the id the hub registered for (rw, rt, rs): learnt from the worker that
+        // received it, or — when that worker could not be sent the request —
+        // rebuilt from a sibling id of the same scatter ("{verb}-{worker}-{task}-{sub}")
+        let id = self.ids.get(&(rw, rt, rs)).cloned().unwrap_or_else(|| {
+            let sibling = self.ids.iter().find(|(k, _)| k.1 == rt && k.2 == rs).map(|(_, v)| v.clone());
+            let unsent = self.reqs.iter().any(|q| q.task == Some(rt) && q.unsendable.contains(&rw));
+            match sibling {
+                Some(sib) if unsent => {
+                    let parts: Vec<&str> = sib.rsplitn(4, '-').collect();
+                    format!("{}-{rw}-{rt}-{rs}", parts[3])
+                }
+                _ => format!("Unknown-{rw}-{rt}-{rs}"),
+            }
+        });
         let (status, msg) = match st {
             "ok" => (ResponseStatus::Ok, ""),
             "fail" => (ResponseStatus::Failure, "f"),
             _ => (ResponseStatus::Processing, "p"),
         };
-        if let Some(q) = self.reqs.iter_mut().find(|q| q.task == Some(rt) && self.ids.contains_key(&(rw, rt, rs))) {
+        let known = !id.starts_with("Unknown-");
+        if let Some(q) = self.reqs.iter_mut().find(|q| q.task == Some(rt) && known) {
             q.touched_at.push(op_idx);
             if st != "proc" {
                 q.answers.push((w, rw, rs, st == "ok", op_idx));
@@ -916,7 +959,7 @@ impl Area for Hubs {
         "hub"
     }
     fn rule(&self) -> String {
-        "a real CommandHub thread (worker_timeout 1 s) with 0..3 fake workers and 1..3 scripted clients; each case assigns every (request, worker) a behaviour in {ok, failure, silent, close, duplicate, late, processing-then-ok, failure-after-ok, answer under another worker's id, unknown id}, interleaves the answers of concurrent requests in a random order, optionally delivers several workers' answers in ONE poll batch (hub blocked inside SaveState-to-FIFO), and ends with a time advance past the deadline; verbs: AddCluster (mutating), RemoveCluster of a missing cluster (rejected by main), QueryClustersHashes/Status/QueryMetrics, LoadState (k requests / missing file), ListWorkers, HardStop/SoftStop, request_type None/LaunchWorker/ReturnListenSockets; non-trivial = at least one worker misbehaves (not plain ok) or two requests overlap; distinct = distinct op sequence".into()
+        "a real CommandHub thread (worker_timeout 1 s) with 0..3 fake workers and 1..3 scripted clients; now and then the last 1-2 workers have a channel ceiling (4 KiB) that refuses a big mutating request (8 KB id: write_message fails, the worker is alive but cannot be sent the request); each case assigns every (request, worker) a behaviour in {ok, failure, silent, close, duplicate, late, processing-then-ok, failure-after-ok, answer under another worker's id, unknown id}, interleaves the answers of concurrent requests in a random order, optionally delivers several workers' answers in ONE poll batch (hub blocked inside SaveState-to-FIFO), and ends with a time advance past the deadline; verbs: AddCluster (mutating), RemoveCluster of a missing cluster (rejected by main), QueryClustersHashes/Status/QueryMetrics, LoadState (k requests / missing file), ListWorkers, HardStop/SoftStop, request_type None/LaunchWorker/ReturnListenSockets; non-trivial = at least one worker misbehaves (not plain ok) or two requests overlap; distinct = distinct op sequence".into()
     }
     fn cases(&self, thorough: bool) -> u64 {
         if thorough { 4000 } else { 160 }
@@ -986,8 +1029,13 @@ impl Area for Hubs {
 /// returns true when the run's timing was unreliable
 fn run_case(ops: &[String], r: &mut ImplRun) -> bool {
     let first: Vec<&str> = ops.first().map(|s| s.split_whitespace().collect()).unwrap_or_default();
-    let (nw, t) = match first.as_slice() {
-        ["new", w, t] => (w.parse::<usize>().unwrap_or(0).min(8), t.parse::<u64>().unwrap_or(T_UNITS)),
+    let (nw, t, nsmall) = match first.as_slice() {
+        ["new", w, t] => (w.parse::<usize>().unwrap_or(0).min(8), t.parse::<u64>().unwrap_or(T_UNITS), 0usize),
+        ["new", w, t, sm] => (
+            w.parse::<usize>().unwrap_or(0).min(8),
+            t.parse::<u64>().unwrap_or(T_UNITS),
+            sm.parse::<usize>().unwrap_or(0),
+        ),
         _ => {
             r.out = ops.iter().map(|_| "bad-op".to_string()).collect();
             return false;
@@ -997,13 +1045,17 @@ fn run_case(ops: &[String], r: &mut ImplRun) -> bool {
         r.out = ops.iter().map(|_| "bad-op".to_string()).collect();
         return false;
     }
-    let rig = Rig::start(nw, 1);
+    let rig = Rig::start_small(nw, 1, nsmall);
     r.out.push("ok".into());
     r.tags.push(format!("workers:{nw}"));
+    if nsmall > 0 {
+        r.tags.push(format!("small-workers:{nsmall}"));
+    }
     let mut run = Run {
         rig,
         clients: BTreeMap::new(),
         closed_workers: vec![],
+        small: (0..nw as u64).filter(|w| *w as usize + nsmall >= nw).collect(),
         ids: BTreeMap::new(),
         reqs: vec![],
         hub_gone: false,
@@ -1100,6 +1152,8 @@ fn oracles(run: &mut Run, nops: usize) {
                     let missing: Vec<u64> = q.targeted.iter().copied().filter(|w| !acked(*w)).collect();
                     let class = if !q.verb.is_mutating() {
                         if q.verb.is_stop() { "stop-ok-without-all-workers" } else { "query-ok-without-all-workers" }
+                    } else if missing.iter().any(|w| q.unsendable.contains(w)) {
+                        "ok-despite-unsendable-worker"
                     } else if dup {
                         "ok-by-duplicate-answer"
                     } else if missing.iter().any(|w| q.closed_while_pending.contains(w)) {
@@ -1168,6 +1222,10 @@ fn corpus_cases() -> Vec<Vec<String>> {
         s(&["new 2 10", "req 0 add", "ans 0 1 0 0 ok", "ans 1 1 0 0 fail", "ans 0 0 0 0 ok", "adv 12"]),
         // regression: load state acknowledged twice by one worker, never by the other
         s(&["new 2 10", "req 0 load 1", "ans 0 0 0 1 ok", "ans 0 0 0 1 ok", "adv 12"]),
+        // a worker that is alive but cannot be sent the request (its channel refuses
+        // the frame) stays expected: failure at the deadline; it is closed meanwhile
+        s(&["new 2 10 1", "req 0 addbig", "ans 0 0 0 0 ok", "req 1 add", "ans 0 0 1 0 ok", "adv 12"]),
+        s(&["new 3 10 2", "req 0 add", "req 1 addbig", "ans 0 0 1 0 ok", "ans 0 0 0 0 ok", "ans 1 1 0 0 ok", "ans 2 2 0 0 ok", "adv 12"]),
         // one poll batch: Ok from worker 0 and Failure from worker 1 together
         s(&["new 2 10", "req 0 add", "hold", "ans 0 0 0 0 ok", "ans 0 0 0 0 ok", "ans 1 1 0 0 fail", "release"]),
     ]
@@ -1176,7 +1234,10 @@ fn corpus_cases() -> Vec<Vec<String>> {
 fn gen_case(rng: &mut Rng, thorough: bool) -> Vec<String> {
     let _ = thorough;
     let nw = *rng.pick(&[1u64, 2, 2, 2, 3, 3, 0]);
-    let mut ops = vec![format!("new {nw} {T_UNITS}")];
+    // now and then the last worker(s) have a channel that refuses big requests
+    let nsmall = if nw >= 1 && rng.chance(1, 5) { rng.range(1, nw.min(2)) } else { 0 };
+    let mut ops = vec![if nsmall > 0 { format!("new {nw} {T_UNITS} {nsmall}") } else { format!("new {nw} {T_UNITS}") }];
+    let small: Vec<u64> = (0..nw).filter(|w| w + nsmall >= nw).collect();
     let mut closed: Vec<u64> = vec![];
     if nw >= 2 && rng.chance(1, 10) {
         let w = rng.below(nw);
@@ -1210,6 +1271,7 @@ fn gen_case(rng: &mut Rng, thorough: bool) -> Vec<String> {
             let c = issued;
             issued += 1;
             let verb = match rng.below(100) {
+                0..=44 if nsmall > 0 && rng.chance(1, 2) => "addbig".to_string(),
                 0..=44 => "add".to_string(),
                 45..=52 => "query".into(),
                 53..=60 => "status".into(),
@@ -1226,6 +1288,19 @@ fn gen_case(rng: &mut Rng, thorough: bool) -> Vec<String> {
             ops.push(format!("req {c} {verb}"));
             if vk.is_stop() {
                 stopped = true;
+            }
+            if vk == VerbK::AddBig {
+                // the small workers alive now cannot be sent the request: they
+                // never answer it, and the main process closes their session
+                for w in small.iter().copied().filter(|w| !closed.contains(w)).collect::<Vec<_>>() {
+                    closed.push(w);
+                    for p in pend.iter_mut() {
+                        for q in p.queues.iter_mut() {
+                            q.retain(|e| !e.starts_with(&format!("ans {w} ")) && *e != format!("close {w}"));
+                        }
+                        p.late.retain(|e| !e.starts_with(&format!("ans {w} ")));
+                    }
+                }
             }
             if vk.gathers() {
                 let task = next_task;
